@@ -47,7 +47,6 @@ def go_env():
     e["GOPROXY"] = "off"
     e.pop("GOTOOLCHAIN", None)  # must stay 'auto' so the cached go1.25.5 is selected
     e.pop("GOSUMDB", None)
-    e.setdefault("GOCACHE", os.path.join(BUILD, "gocache"))
     return e
 
 
